@@ -6,7 +6,7 @@ From Attrs Require Import C14.Model.
 (** ** 1. [wrap] factors into "error or the writes the specification asks for". *)
 
 Definition writes_of (c : cfg) : list (dn * wr) :=
-  (if c_frozen c then [(Dsa, WGen); (Dda, WGen)] else []) ++
+  (if effectively_frozen c then [(Dsa, WGen); (Dda, WGen)] else []) ++
   (if generate c GPickle then [(Dg, WGen); (Dst, WGen)] else []) ++
   (if generate c GRepr then [(Dr, WGen)] else []) ++
   (if str_arg c then [(Ds, WGen)] else []) ++
@@ -59,9 +59,10 @@ Proof.
   destruct (c_api c) eqn:Ha, (c_cmp c) eqn:Hc; try reflexivity;
   (destruct (determine_attrs_eq_order _ (c_eq c) (order_arg c)) as [[e o]|];
    [ destruct HF as (-> & -> & -> & ->) | destruct HF as [-> | [-> ->]]; reflexivity ]);
-  unfold inherits_attrs_getstate;
+  unfold inherits_attrs_getstate, has_frozen_base_class;
   rewrite !dwti_generic, !own_is_class_defines;
   unfold writes_of, spec_hash;
+  change (c_frozen c || base_frozen (c_base c) && negb (class_defines c Dsa)) with (effectively_frozen c);
   change (class_defines c Dsa) with (body_defines c Dsa || false); rewrite orb_false_r;
   replace (if is_none (c_uhash c) then c_hash c else c_uhash c) with (explicit_flag c GHash)
     by (unfold explicit_flag; destruct (c_uhash c); reflexivity);
@@ -79,7 +80,7 @@ Proof.
     by (unfold generate, explicit_flag, detects, documented_default, members; cbn [existsb];
         destruct (match_args c), (class_defines c Dm); reflexivity);
   destruct (generate c GEq), (generate c GRepr), (explicit_flag c GHash), (auto_detect c),
-    (class_defines c Dh), (c_frozen c), (str_arg c), (body_defines c Dsa); reflexivity.
+    (class_defines c Dh), (effectively_frozen c), (str_arg c), (body_defines c Dsa); reflexivity.
 Qed.
 
 (** ** 2. Looking a name up in the accumulated writes. *)
@@ -115,7 +116,7 @@ Ltac destruct_atoms :=
           match goal with
           | |- context [generate ?c ?g] => destruct (generate c g)
           | |- context [spec_hash ?c] => destruct (spec_hash c)
-          | |- context [c_frozen ?c] => destruct (c_frozen c)
+          | |- context [effectively_frozen ?c] => destruct (effectively_frozen c)
           | |- context [str_arg ?c] => destruct (str_arg c)
           | |- context [slots ?c] => destruct (slots c)
           | |- context [c_own ?c] => destruct (c_own c)
